@@ -360,13 +360,27 @@ class Theory:
             # obtain list of previous sequents used by the proof method:
             prev_ths = []
             assert isinstance(seq.prevs, list), "prevs should be a list"
+            if seq.prevs:
+                # The id of the current item must also agree with its position.
+                try:
+                    cur_item = prf.find_item(seq.id)
+                except ProofStateException:
+                    cur_item = None
+                if cur_item is not seq:
+                    raise CheckProofException("id %s does not agree with position of item" % seq.id)
             for prev in seq.prevs:
                 if not seq.id.can_depend_on(prev):
                     raise CheckProofException("id %s cannot depend on %s" % (seq.id, prev))
                 try:
-                    prev_ths.append(prf.find_item(prev).th)
+                    prev_item = prf.find_item(prev)
                 except ProofStateException:
                     raise CheckProofException("previous item not found")
+                # Items are looked up by position, while the order between
+                # items is decided using ids. The two must agree, otherwise
+                # an item could refer to itself or to a later item.
+                if prev_item.id != prev:
+                    raise CheckProofException("id %s does not agree with position of item" % prev)
+                prev_ths.append(prev_item.th)
             
             for prev, prev_th in zip(seq.prevs, prev_ths):
                 if prev_th is None:
